@@ -54,6 +54,20 @@ InvOnce == phase = "done" =>
       expect == SelectSeq(PreOrder(Strip(tree)), LAMBDA n : ~IsList(n))
   IN Len(content) = Len(expect) /\ \A i \in 1..Len(expect) : content[i][2] = expect[i].id
 
+\* C01 at token level: without its layout tokens the output is exactly the pre-order walk of the
+\* tree without metadata - every tag opened and closed once, properly nested, void form exactly
+\* for childless void names, leaves in place
+RECURSIVE Walk(_)
+Walk(x) == IF IsMeta(x) THEN <<>>
+           ELSE IF ~IsTag(x) /\ ~IsList(x) THEN <<Tok("leaf", x.id)>>
+           ELSE LET inner == FlattenSeq([i \in 1..Len(x.c) |-> Walk(x.c[i])]) IN
+                IF IsList(x) THEN inner
+                ELSE IF IsVoid(x) /\ NonMeta(x.c) = <<>> THEN <<Tok("void", x.id)>>
+                ELSE <<Tok("open", x.id)>> \o inner \o <<Tok("close", x.id)>>
+InvC01 == phase = "done" =>
+  \A ind \in Indents, eol \in BOOLEAN :
+     SelectSeq(Render(tree, ind, eol, TRUE), LAMBDA t : ~IsLayout(t)) = Walk(tree)
+
 Export == phase = "done" =>
    Serialize(ToJson([tree |-> tree]) \o "\n", IOEnv.EXPORT_FILE,
              [format |-> "TXT", charset |-> "UTF-8", openOptions |-> <<"WRITE", "CREATE", "APPEND">>]).exitValue = 0
